@@ -649,6 +649,11 @@ func genConnectExchange(g *Gen, tag string, prop string) *Plan {
 	p.Peers = []PeerPlan{{Name: "p1", Ops: sg.ops, Policy: pol}}
 	rcs := []byte{0, 0, 0, 1, 2, 3, 4, 5}
 	p.Broker.ConnackRC = rcs[g.Intn(len(rcs))]
+	if nex == 2 && g.Bool(0.5) {
+		// the first attempt is refused by the broker, the second is not: what a refusal leaves behind
+		// (in the session, or in what all sessions share) must not show in the second CONNECT
+		p.Broker.ConnackRCs = []byte{byte(g.Range(1, 5)), 0, 0, 0}
+	}
 	if g.Bool(0.3) {
 		// a slow broker: the packets that follow the complete exchange arrive while its CONNACK is
 		// still missing (duplicates and stragglers of the exchange must not restart or repeat anything)
